@@ -96,7 +96,7 @@ IsNormalFormOf(i, f, v) == Normalised(i, f) /\ REq(RAdd(i, f), v)
 (***************************************************************************)
 PlainKinds == {"pyint", "pyfloat", "npint", "npfloat", "npfloat32", "arr0", "arrn", "arrint"}
 ComplexKinds == {"pycomplex", "npcomplex", "arrcomplex"}
-DimlessKinds == {"dimless", "dimlessarr"}
+DimlessKinds == {"dimless", "dimlessarr", "dimscaled", "dimscaledarr"}    \* dimscaled: scaled unit (percent, km/m): the number value*scale
 CycleKinds == {"cycleq", "cycleqarr", "angle", "phase", "phasearr"}
 AllKinds == PlainKinds \cup ComplexKinds \cup DimlessKinds \cup CycleKinds
 
